@@ -9,6 +9,8 @@ import Model.Transcript
 import Bpp.GensThm
 import Bpp.BindingThm
 import Bpp.NonceThm
+import Bpp.TotalityThm
+import Bpp.ApiThm
 /-! # Property theorems
 
 Only the property statements live here, one block per C-id, each about the **executable** model functions of
@@ -542,5 +544,52 @@ open Model.Nonce Model.Transcript in
     public datum have different inputs whatever the external RNG returns; identical runs have identical inputs. -/
 theorem C14_rng_input_inj (h h' : List Event) (w w' e e' : Bytes) (heq : rngInput h w e = rngInput h' w' e') :
     h = h' ∧ w = w' ∧ e = e' := NonceThm.rngInput_inj h h' w w' e e' heq
+
+/-! ## C16 No panics on untrusted input
+
+The model functions are total (Lean accepts them: loops are structural or on a decreasing measure), every `get` /
+`checked_*` of the Rust is an explicit branch. What is proved: the guarded index expressions are in range after the
+shape checks, hostile round counts are refused before any work, and the work is bounded by the statement size.
+Panics inside dalek / merlin / the allocator are outside the model (partial). -/
+
+theorem C16_s_index (κ i : ℕ) (h1 : 1 ≤ i) (h2 : i < 2 ^ κ) :
+    i - 2 ^ Nat.log2 i < i ∧ κ - Nat.log2 i - 1 < κ ∧ 2 ^ Nat.log2 i ≤ i := TotalityThm.s_index_in_range κ i h1 h2
+
+open Model.Batch in
+theorem C16_shape_bounds (x : Member) (h : shapeOk x = true) : x.rounds < 64 ∧ 2 ^ x.rounds = x.n * x.m :=
+  TotalityThm.shape_bounds x h
+
+open Model.Batch in
+theorem C16_work_bounded (x : Member) (cap : ℕ) (h : shapeOk x = true) (hn : x.n ≤ 64) (hm : x.m ≤ cap) :
+    2 ^ x.rounds ≤ 64 * cap := TotalityThm.work_bounded x cap h hn hm
+
+open Model.Batch in
+theorem C16_huge_rounds_refused (x : Member) (h : 64 ≤ x.rounds) : shapeOk x = false := TotalityThm.huge_rounds_refused x h
+
+open Model.Gens in
+/-- the static-scalar count handed to the precomputed MSM always equals the table size (dalek `assert_eq!`s it) -/
+theorem C16_static_length (bits m cap p : ℕ) (h : padding bits m cap = some p) :
+    2 * (bits * m) + p = (tableOrder bits cap).length := GensThm.padding_fills bits m cap p h
+
+/-! ## C18 Purity, repeatability, thread-safety (refinement to a stateless spec + once-cell machine; real schedules
+are sampled by the harness, the model cannot exhibit a data race — partial) -/
+
+open Model.Api in
+/-- **C18 (stateless).** Any history of API calls returns, call by call, the pure function of each call's own
+    arguments. -/
+theorem C18_stateless {Op Res : Type} (f : Op → Res) (ops : List Op) : run f () ops = ops.map f :=
+  ApiThm.run_eq_map f () ops
+
+open Model.Api in
+/-- **C18 (no call observes another).** -/
+theorem C18_history_independent {Op Res : Type} (f : Op → Res) (pre pre' post post' : List Op) (op : Op) :
+    (run f () (pre ++ op :: post))[pre.length]? = (run f () (pre' ++ op :: post'))[pre'.length]? :=
+  ApiThm.result_independent_of_history f pre pre' post post' op
+
+open Model.Api in
+/-- **C18 (once-initialised tables).** Under every interleaving of any number of threads racing the first use, every
+    completed read returns `derive` and the cell only ever holds `derive`. -/
+theorem C18_once (derive threads : ℕ) (sched : List ℕ) : ApiThm.Inv derive (runCell derive (init threads) sched) :=
+  ApiThm.once_cell_deterministic derive threads sched
 
 end Bpp
